@@ -315,3 +315,17 @@ func waitUntil(d time.Duration, cond func() bool) bool {
 		time.Sleep(50 * time.Microsecond)
 	}
 }
+
+// notServingText is what Close says on a Server that is not serving (asked of a Server that never served, so that
+// the harness does not depend on the wording).
+var notServingText = func() string {
+	a := lime.InProcessAddr("verif-never-served")
+	err := lime.NewServer(lime.NewServerConfig(), &lime.EnvelopeMux{}, lime.NewBoundListener(lime.NewInProcessTransportListener(a), a)).Close()
+	if err == nil {
+		return "\x00no error"
+	}
+	return err.Error()
+}()
+
+// notServingYet: Close was called before ListenAndServe got as far as serving.
+func notServingYet(err error) bool { return err != nil && err.Error() == notServingText }
